@@ -124,12 +124,16 @@ def arr_binop(I, op, a, b, node=None):
             return scalar_op(I, op, x, y)
     if op is ast.Div:
         den = B if B is not None else None
-        if den is None: I.ob(f"div-nonzero:{what}", tz(b) != 0, kind='safety')
+        pass
     tag = None
     if op is ast.Mult and A is None and B is not None: tag = ('smul', a, b)
     if op is ast.Mult and B is None and A is not None: tag = ('smul', b, a)
-    if op is ast.Pow and A is not None and conc(b) == 2: tag = ('sq', a)
-    return I.new_arr(ArrVal(shp, elem, rs, tag))
+    if op is ast.Pow and A is not None and not isinstance(b, ArrRef) and conc(b) == 2: tag = ('sq', a)
+    vecs = None
+    if op is ast.Mult and tag and tag[0] == 'smul':
+        V_ = I.A(tag[2])
+        if V_.ndim == 1 and V_.vecs is not None: vecs = (z3.simplify(to_real(tz(tag[1])) * to_real(tz(V_.vecs[0]))), V_.vecs[1])
+    return I.new_arr(ArrVal(shp, elem, rs, tag, False, vecs))
 
 def arr_cmp(I, op, a, b):
     if isinstance(a, ArrRef) and isinstance(b, (list, tuple)): b = from_list(I, b)
@@ -155,7 +159,7 @@ def arr_cmp(I, op, a, b):
 
 def arr_unop(kind, I, a):
     A = I.A(a)
-    if kind == 'neg': return I.new_arr(ArrVal(A.shape, lambda *ix: -A.elem(*ix), A.sort, ('smul', -1, a)))
+    if kind == 'neg': return I.new_arr(ArrVal(A.shape, lambda *ix: -A.elem(*ix), A.sort, ('smul', -1, a), False, (z3.simplify(-to_real(tz(A.vecs[0]))), A.vecs[1]) if (A.ndim == 1 and A.vecs is not None) else None))
     if kind == 'not': return I.new_arr(ArrVal(A.shape, lambda *ix: Not(A.elem(*ix)), BoolS))
 
 # ------------------------------------------------------------------ matmul hook (algebraic layer plugs in here)
@@ -299,7 +303,18 @@ def arr_getitem(I, b, ix, node=None):
     if A.ndim == 2 and plan[1][0] == 'fix' and plan[0][0] == 'slice' and isinstance(ix[0], slice) and ix[0] == slice(None): tag = ('col', b, plan[1][1])
     if fancy: tag = ('take', b, idx, fancy[0])
     if tag is None and all(p_[0] == 'slice' for p_ in plan): tag = ('slice', b, tuple((p_[1], s) for p_, s in zip(plan, shp)))
-    return I.new_arr(ArrVal(tuple(shp), elem, A.sort, tag, A.islist and len(shp) == 1))
+    vecs = None
+    if A.vecs is not None and A.ndim == 2:
+        ax, fn = A.vecs; other = 1 - ax
+        full_other = plan[other][0] == 'slice' and isinstance(ix[other], slice) and ix[other].start is None and ix[other].stop is None
+        if full_other:
+            pa = plan[ax]
+            if pa[0] == 'fix': vecs = (1, fn(pa[1]))
+            elif pa[0] == 'slice': vecs = (ax, (lambda lo: (lambda t: fn(z3.simplify(lo + tz(t)))))(pa[1]))
+            elif pa[0] == 'fancy': vecs = (ax, (lambda J_: (lambda t: fn(J_.elem(tz(t)))))(pa[1]))
+    elif A.vecs is not None and A.ndim == 1 and plan[0][0] == 'slice' and isinstance(ix[0], slice) and ix[0].start is None and ix[0].stop is None:
+        vecs = A.vecs
+    return I.new_arr(ArrVal(tuple(shp), elem, A.sort, tag, A.islist and len(shp) == 1, vecs))
 
 def bool_mask_select(I, b, mask, axis, what):
     """a[mask] / a[:, mask]: compress along axis; result defined through a strictly increasing index map"""
@@ -330,6 +345,7 @@ def where_true(I, mask):
     I.assume(ForAll([t], Implies(And(0 <= t, t < m), And(0 <= f(t), f(t) < n, M.elem(f(t)), w(f(t)) == t), ), patterns=[f(t)]))
     I.assume(ForAll([t, s], Implies(And(0 <= t, t < s, s < m), f(t) < f(s)), patterns=[z3.MultiPattern(f(t), f(s))]))
     I.assume(ForAll([p], Implies(And(0 <= p, p < n, M.elem(p)), And(0 <= w(p), w(p) < m, f(w(p)) == p)), patterns=[w(p)]))
+    I.assume(Implies(m == 0, ForAll([p], Implies(And(0 <= p, p < n), Not(M.elem(p))))))      # empty result: the mask is false everywhere (solver-chosen triggers)
     return I.new_arr(ArrVal((m,), lambda t_: f(tz(t_)), IntS, ('where', mask, w)))
 
 def arr_setitem(I, b, ix, v, node=None):
@@ -352,11 +368,30 @@ def arr_setitem(I, b, ix, v, node=None):
         if J.sort == BoolS: raise Unsupported("boolean mask store")
         t = z3.Int('t!fs')
         I.ob(f"index:{what}", ForAll([t], Implies(And(0 <= t, t < tz(J.shape[0])), And(J.elem(t) >= 0, J.elem(t) < tz(A.shape[k])))), kind='index')
-        if V is not None: raise Unsupported("fancy store of array value")
-        inset = I.fresh_fn('inset', IntS, BoolS); wit = I.fresh_fn('fswit', IntS, IntS)
-        p_ = z3.Int('p!fs')
-        I.assume(ForAll([t], Implies(And(0 <= t, t < tz(J.shape[0])), inset(J.elem(t))), patterns=[J.elem(t)]))
-        I.assume(ForAll([p_], Implies(inset(p_), And(0 <= wit(p_), wit(p_) < tz(J.shape[0]), J.elem(wit(p_)) == p_)), patterns=[inset(p_)]))
+        fwit = None
+        if J.tag and J.tag[0] == 'where':
+            # indices produced by np.where/flatnonzero: membership is the mask itself, position is its witness function
+            M_ = I.A(J.tag[1]); wfn = J.tag[2]; nM = tz(M_.shape[0])
+            inset = (lambda M_, nM: (lambda p: And(0 <= tz(p), tz(p) < nM, M_.elem(p))))(M_, nM)
+            fwit = wfn
+        elif J.tag and J.tag[0] == 'arange':
+            lo_ = J.tag[1]; nJ = tz(J.shape[0])
+            inset = (lambda lo_, nJ: (lambda p: And(lo_ <= tz(p), tz(p) < lo_ + nJ)))(lo_, nJ)
+            fwit = (lambda lo_: (lambda p: tz(p) - lo_))(lo_)
+        else:
+            if V is not None: raise Unsupported("fancy store of array value through an index array that is not known to be duplicate-free")
+            inset = I.fresh_fn('inset', IntS, BoolS); wit = I.fresh_fn('fswit', IntS, IntS)
+            p_ = z3.Int('p!fs')
+            I.assume(ForAll([t], Implies(And(0 <= t, t < tz(J.shape[0])), inset(J.elem(t))), patterns=[J.elem(t)]))
+            I.assume(ForAll([p_], Implies(inset(p_), And(0 <= wit(p_), wit(p_) < tz(J.shape[0]), J.elem(wit(p_)) == p_)), patterns=[inset(p_)]))
+        if V is not None:
+            if V.ndim != 1 or A.ndim != 1: raise Unsupported("fancy store of nd array value")
+            sd = same_dim(V.shape[0], J.shape[0])
+            if sd is False: raise RaiseEx('ValueError')
+            if sd is None: I.ob(f"shape:{what}", tz(V.shape[0]) == tz(J.shape[0]), kind='shape')
+            oldA = A; V_ = V
+            I.st.heap[b.id] = ArrVal(A.shape, lambda p: If(inset(tz(p)), coerce(V_.elem(fwit(tz(p))), oldA.sort), oldA.elem(p)), A.sort, None, A.islist)
+            return
     plan = []
     for k, x in enumerate(ix):
         if isinstance(x, slice):
@@ -397,7 +432,19 @@ def arr_setitem(I, b, ix, v, node=None):
         val = coerce(val, srt)
         c = And(*conds) if conds else BoolVal(True)
         return If(c, val, old.elem(*jx))
-    I.st.heap[b.id] = ArrVal(A.shape, elem, srt, None, A.islist)
+    vecs = None
+    if A.ndim == 2 and A.sort == RealS and not fancy:
+        from . import veclayer as VL
+        base = A.vecs
+        cand_ax = [ax for ax in (0, 1) if plan[ax][0] == 'fix' and plan[1 - ax][0] == 'all']
+        if cand_ax:
+            ax = cand_ax[0]
+            if base is None and A.tag and A.tag[0] == 'const' and z3.is_rational_value(z3.simplify(A.tag[1])) and z3.simplify(A.tag[1]).numerator_as_long() == 0:
+                base = (ax, lambda t: VL.ZEROV)
+            if base is not None and base[0] == ax and V is not None and V.ndim == 1 and V.vecs is not None and conc(V.vecs[0]) == 1:
+                n_ = plan[ax][1]; vt = V.vecs[1]; of = base[1]
+                vecs = (ax, lambda t: If(tz(t) == n_, vt, of(t)))
+    I.st.heap[b.id] = ArrVal(A.shape, elem, srt, None, A.islist, vecs)
 
 # ------------------------------------------------------------------ array attributes / methods
 def a_shape(I, a): return tuple(conc(d) for d in I.A(a).shape)
@@ -405,7 +452,7 @@ def a_T(I, a):
     A = I.A(a)
     if A.ndim == 1: return a
     if A.ndim != 2: raise Unsupported(".T of nd")
-    return I.new_arr(ArrVal((A.shape[1], A.shape[0]), lambda i, j: A.elem(j, i), A.sort, ('T', a)))
+    return I.new_arr(ArrVal((A.shape[1], A.shape[0]), lambda i, j: A.elem(j, i), A.sort, ('T', a), False, (1 - A.vecs[0], A.vecs[1]) if A.vecs is not None else None))
 def a_ndim(I, a): return I.A(a).ndim
 def a_size(I, a):
     r = IntVal(1)
@@ -488,7 +535,7 @@ def np_ones_like(I, a, dtype=None, **kw):
     A = I.A(a); return np_full(I, A.shape, coerce(1, A.sort if dtype is None else dtype_sort(dtype)))
 def np_copy(I, a, **kw):
     if isinstance(a, (list, tuple)): a = from_list(I, a)
-    A = I.A(a); return I.new_arr(ArrVal(A.shape, A.elem, A.sort, ('copy', a)))
+    A = I.A(a); return I.new_arr(ArrVal(A.shape, A.elem, A.sort, ('copy', a), False, A.vecs))
 def np_array(I, a, dtype=None, **kw):
     if isinstance(a, (list, tuple)): a = from_list(I, a)
     if not isinstance(a, ArrRef):
@@ -497,7 +544,7 @@ def np_array(I, a, dtype=None, **kw):
     A = I.A(a)
     s = A.sort if dtype is None else dtype_sort(dtype)
     if kw.get('copy', True) is False and s == A.sort: return a
-    return I.new_arr(ArrVal(A.shape, (lambda *ix: coerce(A.elem(*ix), s)) if s != A.sort else A.elem, s, ('copy', a) if s == A.sort else None))
+    return I.new_arr(ArrVal(A.shape, (lambda *ix: coerce(A.elem(*ix), s)) if s != A.sort else A.elem, s, ('copy', a) if s == A.sort else None, False, A.vecs if s == A.sort else None))
 def np_asarray(I, a, dtype=None, **kw):
     if isinstance(a, ArrRef) and (dtype is None or dtype_sort(dtype) == I.A(a).sort) and not I.A(a).islist: return a
     return np_array(I, a, dtype)
@@ -528,6 +575,10 @@ def np_sum(I, a, axis=None, **kw):
         I.assume(And(cnt >= 0, cnt <= tz(A.shape[0])))
         I.assume((cnt > 0) == Exists([k], And(0 <= k, k < tz(A.shape[0]), A.elem(k))))
         return cnt
+    if A.sort != BoolS and axis is None:
+        # sum of numbers without an algebraic interpretation: an arbitrary value (over-approximation; no facts about it are assumed)
+        used('np.sum (opaque: result unconstrained)')
+        return I.fresh('sum', A.sort if A.sort != BoolS else IntS)
     raise Unsupported("np.sum without algebraic interpretation")
 def np_any(I, a, axis=None, **kw):
     A = I.A(a)
@@ -674,6 +725,8 @@ def np_reshape(I, a, shape):
         return I.new_arr(ArrVal((conc(n), conc(m)), lambda i, j: A.elem(tz(i) * tz(m) + tz(j)), A.sort))
     if A.ndim == 2 and len(shape) == 1 and conc(shape[0]) == -1: return np_ravel(I, a)
     if A.ndim == 1 and len(shape) == 1: return a
+    if A.ndim == 2 and len(shape) == 2 and (z3.eq(tz(shape[0]), tz(A.shape[0])) and conc(shape[1]) == -1): return a
+    if A.ndim == 2 and len(shape) == 2 and (conc(shape[0]) == -1 and conc(shape[1]) == 1 and conc(A.shape[1]) == 1): return a
     if A.ndim == 1 and len(shape) == 3:
         p, n, m = shape
         I.ob("shape:reshape size", tz(A.shape[0]) == tz(p) * tz(n) * tz(m), kind='shape')
@@ -734,6 +787,16 @@ def np_take(I, a, idx, axis=None, **kw):
     A = I.A(a)
     ix = [slice(None)] * A.ndim; ix[axis] = idx
     return arr_getitem(I, a, tuple(ix))
+def np_diag(I, a, k=0):
+    used('np.diag')
+    if k != 0: raise Unsupported("np.diag offset")
+    A = I.A(a)
+    if A.ndim == 2:
+        n = zmin(tz(A.shape[0]), tz(A.shape[1])) if not z3.eq(tz(A.shape[0]), tz(A.shape[1])) else A.shape[0]
+        return I.new_arr(ArrVal((conc(n),), lambda i: A.elem(i, i), A.sort, ('diag', a)))
+    if A.ndim == 1:
+        return I.new_arr(ArrVal((A.shape[0], A.shape[0]), lambda i, j: If(tz(i) == tz(j), A.elem(i), coerce(0, A.sort)), A.sort, ('diagm', a)))
+    raise Unsupported("np.diag nd")
 def np_transpose(I, a, axes=None):
     A = I.A(a)
     if axes is None: return a_T(I, a)
@@ -847,6 +910,16 @@ def b_round(I, v, nd=None):
     return round(v)
 def b_sorted(I, v, **kw):
     if isinstance(v, (list, tuple)) and not any(is_sym(x) for x in v): return sorted(v)
+    if isinstance(v, ArrRef) and I.A(v).ndim == 1 and not kw:
+        # sorted(a): ascending rearrangement of a, with explicit permutation witnesses (existential-free)
+        used('sorted (ascending permutation of the input)')
+        A = I.A(v); n = tz(A.shape[0])
+        r = I.fresh_fn('sorted', IntS, A.sort); p = I.fresh_fn('perm', IntS, IntS); q = I.fresh_fn('perminv', IntS, IntS)
+        t, u = z3.Int('t!so'), z3.Int('u!so')
+        I.assume(ForAll([t], Implies(And(0 <= t, t < n), And(0 <= p(t), p(t) < n, q(p(t)) == t, r(t) == A.elem(p(t)))), patterns=[p(t)]))
+        I.assume(ForAll([t], Implies(And(0 <= t, t < n), And(0 <= q(t), q(t) < n, p(q(t)) == t)), patterns=[q(t)]))
+        I.assume(ForAll([t, u], Implies(And(0 <= t, t < u, u < n), r(t) <= r(u)), patterns=[z3.MultiPattern(r(t), r(u))]))
+        return I.new_arr(ArrVal((A.shape[0],), lambda i: r(tz(i)), A.sort, ('sorted', v, p, q), True))
     raise Unsupported("sorted symbolic")
 def b_print(I, *a, **k): return None
 def b_callable(I, v): return isinstance(v, (Func, Bound, ClassV)) or callable(v)
@@ -894,7 +967,7 @@ def make_ext():
                minimum=np_minimum_maximum('minimum'), maximum=np_minimum_maximum('maximum'), concatenate=np_concatenate,
                argwhere=np_argwhere, flatnonzero=np_flatnonzero, where=np_where, reshape=lambda I, a, s, **k: np_reshape(I, a, s),
                sqrt=np_sqrt, abs=np_abs, absolute=np_abs, round=np_round, around=np_round, rint=np_round, isscalar=np_isscalar, isinf=np_isinf,
-               isfinite=np_isfinite, floor=np_floor, take=np_take, transpose=np_transpose, ravel=np_ravel,
+               isfinite=np_isfinite, floor=np_floor, take=np_take, transpose=np_transpose, ravel=np_ravel, diag=np_diag,
                ndarray=ExtClass('ndarray'), integer=ExtClass('Integral'), floating=ExtClass('float'),
                float64='float64', int64='int64', bool_='bool', linalg=ExtNS('np.linalg'), random=ExtNS('np.random'))
     np.float64 = 'float64'
